@@ -12,20 +12,20 @@ from .tlc import MachineryError
 
 # property -> (level, [engine module names])
 REGISTRY = {
-    "C01": ("model_checking", ["bloomfam", "expanding", "scale", "proofs"]),
-    "C02": ("model_checking", ["countmin", "scale"]),
-    "C03": ("model_checking", ["cuckoo", "scale"]),
-    "C04": ("model_checking", ["qf", "scale"]),
+    "C01": ("model_checking", ["bloomfam", "expanding", "scale", "proofs", "repotests"]),
+    "C02": ("model_checking", ["countmin", "scale", "repotests"]),
+    "C03": ("model_checking", ["cuckoo", "scale", "repotests"]),
+    "C04": ("model_checking", ["qf", "scale", "repotests"]),
     "C05": ("model_checking", ["bloomfam", "countmin", "cuckoo", "expanding", "scale"]),
     "C06": ("model_checking", ["layout"]),
     "C07": ("model_checking", ["sizing", "scale"]),
-    "C08": ("model_checking", ["bloomfam", "cuckoo", "scale"]),
-    "C09": ("model_checking", ["expanding", "scale"]),
-    "C10": ("model_checking", ["expanding", "scale"]),
+    "C08": ("model_checking", ["bloomfam", "cuckoo", "scale", "repotests"]),
+    "C09": ("model_checking", ["expanding", "scale", "repotests"]),
+    "C10": ("model_checking", ["expanding", "scale", "repotests"]),
     "C11": ("fault_enumeration", ["ondisk", "scale"]),
     "C12": ("model_checking", ["bloomfam", "countmin", "scale", "saturation"]),
     "C13": ("model_checking", ["bloomfam", "countmin", "compat", "saturation", "scale"]),
-    "C14": ("model_checking", ["bloomfam", "countmin", "qf", "cuckoo", "expanding", "scale"]),
+    "C14": ("model_checking", ["bloomfam", "countmin", "qf", "cuckoo", "expanding", "scale", "repotests"]),
     "C16": ("model_checking", ["bloomfam", "countmin", "saturation"]),
     "C15": ("model_checking", ["cuckoo", "scale"]),
     "C17": ("model_checking", ["countmin", "scale"]),
